@@ -361,6 +361,7 @@ func init() {
 			ex.solver.AssertRange(sec)
 			ex.solver.AssertRange(nsec)
 		}
+		ex.extraVars = append(ex.extraVars, sec, nsec)
 		t := TimeV{sec: sec, nsec: nsec, loc: locLocal}
 		if ex.lastNow != nil {
 			b := ex.b
